@@ -93,6 +93,10 @@ func main() {
 			e := <-pool
 			defer func() { pool <- e }()
 			m := kvh.NewModel()
+			m.WriterInKey = true
+			if !run.Thorough() {
+				m.WriterKeys = map[string]bool{"a": true} // quick tier: only key a carries its writer (x4 states instead of x64)
+			}
 			ds := []*kvh.Driver{kvh.NewDriver("inmem", e.im.Fresh(), base), kvh.NewDriver("redis", e.rd.Fresh(), base)}
 			// A listed known finding (the Redis backend strips leading '/': "/c" and "c" alias) does not end the
 			// exploration behind it: it is recorded, the aliased key is no longer observed on that backend for
